@@ -91,7 +91,15 @@ def run(ctx):
         qa, sa_ = np.array(q, dtype=float), np.array(s, dtype=float)
         # the same numeric content in non-contiguous views (C20: results must not depend on the layout)
         layout = rng.choice(["contig", "contig", "strided", "column", "reversed"])
-        if layout == "strided":
+        if nd and nd >= 2 and rng.random() < 0.4:
+            layout = "column-major"       # the .T view of a channels x time recording, or an explicit Fortran copy
+        if layout == "column-major":
+            if rng.random() < 0.5:
+                sa_, qa = np.asfortranarray(sa_), (np.asfortranarray(qa) if rng.random() < 0.6 else qa)
+            else:
+                sa_, qa = np.ascontiguousarray(sa_.T).T, (np.ascontiguousarray(qa.T).T if rng.random() < 0.6 else qa)
+            ctx.count("column_major_multivariate_cases")
+        elif layout == "strided":
             big = np.repeat(sa_, 2, axis=0)
             big[1::2] = 1e6
             sa_ = big[::2]
